@@ -115,7 +115,7 @@ fn strategy() -> impl Strategy<Value = Case> {
         odd_ploidy: true,
         ..GenParams::default()
     };
-    (callset_strategy(params), map_draw_strategy(12), container_strategy(), target_draw_strategy(), prop::option::weighted(0.85, 0usize..=12)).prop_map(|(mut cs, draw, container, td, precision)| {
+    (callset_strategy(params), map_draw_strategy(12), container_strategy(), target_draw_strategy(), prop::option::weighted(0.85, prop_oneof![10 => 0usize..=12, 2 => 13usize..=17, 2 => 18usize..=40, 1 => Just(100usize)])).prop_map(|(mut cs, draw, container, td, precision)| {
         let n = cs.samples.len();
         let map = resolve_map(&draw, n);
         let selected: Vec<bool> = map.assignment(n).iter().map(|a| a.is_some()).collect();
@@ -479,7 +479,7 @@ pub fn check(ctx: &Ctx) -> Check {
     let parts: Vec<Box<dyn Part>> = vec![
         Box::new(RandomPart {
             name: "project-small",
-            rule: "call sets with raised missingness x maps x admissible targets (every m_j in 0..2n_j, weighted on the boundaries: anchored on one record's called totals so that it is exactly sufficient, the same with one population one pair short, 0, 2n_j, min_t, min_t+-1, random) x --project-shape | -p x --precision 0..12 x containers: shape (m_j+1), every printed cell within 0.5*10^-p + 1e-9(1+R) of the reference model with an independent hypergeometric oracle, printed with exactly p decimals, finite; -p i byte-identical to --project-shape 2i+1; non-trivial = >=1 record projected strictly down and >=1 record exactly sufficient or insufficient",
+            rule: "call sets with raised missingness x maps x admissible targets (every m_j in 0..2n_j, weighted on the boundaries: anchored on one record's called totals so that it is exactly sufficient, the same with one population one pair short, 0, 2n_j, min_t, min_t+-1, random) x --project-shape | -p x --precision 0..12 (a third of the cases 13..40, or 100) x containers: shape (m_j+1), every printed cell within 0.5*10^-p + 1e-9(1+R) of the reference model with an independent hypergeometric oracle, printed with exactly p decimals, finite; -p i byte-identical to --project-shape 2i+1; non-trivial = >=1 record projected strictly down and >=1 record exactly sufficient or insufficient",
             cases: ctx.tier.pick(5000, 200_000),
             strategy: Box::new(|| strategy().boxed()),
             eval: Box::new(eval),
